@@ -97,7 +97,12 @@ def main():
   stateful = []
   for k in range(nstateful):
     m, shapes = synth.stateful_model(args.seed * 31 + k, second_fc=bool(k % 2))
-    stateful.append((m, shapes))
+    stateful.append((m, shapes, False))
+  # models whose main subgraph holds BOOL tensors (a GREATER mask, optionally a BOOL constant): every tensor name is reported, bool or not
+  nbool = 8 if args.tier == "quick" else 60
+  for k in range(nbool):
+    m, shapes = synth.bool_mask_model(args.seed * 17 + k, with_const_mask=bool(k % 2))
+    stateful.append((m, shapes, True))
   # 16-bit static quantisation of a FULLY_CONNECTED / TRANSPOSE_CONV with a tiny output channel and an ordinary bias: the int64 bias
   # code of that channel is beyond the int32 range, and the validator has to dequantize it like every other tensor
   from harness import numeric
@@ -123,9 +128,9 @@ def main():
       qmodel = impl["out_bytes"]
       nsamples = 2
     elif len(obs) >= ncase or tried >= ncase * 6 or (stateful and tried % 12 == 0):
-      model, shapes = stateful.pop()
+      model, shapes, is_bool = stateful.pop()
       from ai_edge_quantizer import recipe as _recipe
-      scn, info = {"stateful": True}, {"codes": [["FULLY_CONNECTED", "RNN"]]}
+      scn, info = ({"stateful": True, "bool_mask": True}, {"codes": [["FULLY_CONNECTED", "GREATER", "CAST", "MUL"]]}) if is_bool else ({"stateful": True}, {"codes": [["FULLY_CONNECTED", "RNN"]]})
       qz = quantizer.Quantizer(model, _recipe.dynamic_wi8_afp32())
       qmodel = bytes(qz.quantize().quantized_model)
       impl = {"cal": None}
@@ -262,8 +267,8 @@ def main():
       "states": r.distinct + ro.distinct, "transitions": r.generated + ro.generated, "traces_validated_against_impl": len(obs),
       "comparison_values_checked": sum(len(o["valok"]) for o in obs), "metric_law_vectors": nlaw,
       "evaluations": len(obs), "distinct_nontrivial": sum(1 for m in meta if m["pair"] != "self"),
-      "skipped_nondeterministic_kernel_F15": skipped_f15, "cases_on_reference_kernels": int(nrefk), "stateful_models": nstateful, "int64_bias_models": sum(1 for m in meta if m["scenario"].get("big64")) // 2,
-      "rule": "random 2-5 operator scenarios (1-2 signatures) quantized under random per-op modes, plus stateful models (RNN cell with a variable "
+      "skipped_nondeterministic_kernel_F15": skipped_f15, "cases_on_reference_kernels": int(nrefk), "stateful_models": nstateful, "models_with_bool_tensors": nbool, "int64_bias_models": sum(1 for m in meta if m["scenario"].get("big64")) // 2,
+      "rule": "random 2-5 operator scenarios (1-2 signatures) quantized under random per-op modes, plus models with BOOL tensors (GREATER mask), plus stateful models (RNN cell with a variable "
               "state tensor between dynamically quantised FULLY_CONNECTED ops, 3 test inputs); each compared with its quantized version, "
               "with itself, and the quantized version with itself (every third case on the reference kernels), alternating mse / median_diff_ratio, 2 test inputs; non-trivial = quantized pair",
       "samples": [dict(pair=m["pair"], metric=m["metric"], groups={k: obs[i][k] for k in ("gin", "gout", "gconst", "ginter")}) for i, m in list(enumerate(meta))[:2]],
